@@ -14,7 +14,7 @@ C14 — model of nested-command evaluation and command dispatch (src/callbacks.p
 Command bodies are abstract: `beh plugin command args` says what the body does with its `irc`
 (reply / noReply / error / nothing / raise, optionally after `msg.tag('ignored')`).
 Not modelled: thread scheduling (a threaded command continues the same evaluation on its thread),
-capability checks of `_callCommand` (C01), what `invalidCommand` handlers do (outcome `invalid`),
+capability checks of `_callCommand` (C01), the bodies of `invalidCommand` handlers other than Misc's (abstract),
 a command body that uses its `irc` more than once, non-ASCII case folding in `canonicalName`.
 -/
 import LimnoriaModel.Py.Basic
@@ -304,7 +304,6 @@ inductive Stop where
   | silent                                            -- a command did nothing
   | tooDeep                                           -- more nesting than `maximum`
   | ambiguous (command : List Str) (names : List Str)
-  | invalid (tokens : List Str)                       -- handed to the invalidCommand handlers
 deriving Repr
 
 inductive Outcome where
@@ -330,9 +329,55 @@ def perform (cfg : EvCfg) (nested : Nat) (command : List Str) (a : Act) (st : St
     if cfg.detailed then (.stopped (.error desc), st1)
     else (.replied cfg.errorText, { st1 with handler := true })
 
+/-! ### `_callInvalidCommands`: the chain of `invalidCommand` handlers -/
+
+/-- does this use of the proxy set `repliedTo` (which ends the chain)?  reply / noReply / error do;
+a handler that returns without touching `irc`, or raises something other than `callbacks.Error`
+(logged), lets the next handler try -/
+def Act.answers (a : Act) : Bool :=
+  match a.b with
+  | .reply _ => true
+  | .noReply => true
+  | .error _ => true
+  | .silent => false
+  | .raise (.error _) => true          -- `except Error as e: self.error(str(e))`
+  | .raise _ => false                  -- `except Exception: log.exception(...)`
+
+/-- `Misc.invalidCommand` (flood protection off): with `supybot.reply.whenNotCommand` an error
+naming the command; otherwise, inside brackets, the bracketed text itself comes back as the reply
+(`echo [foo bar]` echoes `[foo bar]`), and at top level nothing happens -/
+def miscInvalid (whenNotCommand : Bool) (brackets : Str) (errText : List Str → Str) (nested : Nat)
+    (tokens : List Str) : Act :=
+  if whenNotCommand then ⟨false, .raise (.error (errText tokens))⟩       -- irc.error / errorInvalid (Raise=True)
+  else if nested ≠ 0 then
+    match brackets with
+    | [l, r] => ⟨false, .reply (l :: joinStr [' '] tokens ++ [r])⟩
+    | _ => ⟨false, .silent⟩
+  else ⟨false, .silent⟩
+
+/-- the `for cb in cbs:` loop of `callInvalidCommands`: the first handler that answers ends it;
+`none` = nobody answered (the evaluation just stops there) -/
+def invalidChain : List (Nat → List Str → Act) → Nat → List Str → Act
+  | [], _, _ => ⟨false, .silent⟩
+  | h :: hs, nested, tokens =>
+    let a := h nested tokens
+    if a.answers then a
+    else
+      -- a tag set by a handler that then passes stays on the message
+      let rest := invalidChain hs nested tokens
+      ⟨a.tag || rest.tag, rest.b⟩
+
+/-- `_callInvalidCommands` for the proxy at level `nested`: what the chain's answer amounts to.  An
+exception raised further up while that answer is being delivered is caught by the chain's own
+`except Exception` (logged, nothing sent) — the same as for an answer made from an `except` clause
+of `_callCommand`, hence the `handler` flag. -/
+def performInvalid (cfg : EvCfg) (nested : Nat) (tokens : List Str) (a : Act) (st : St) : Outcome × St :=
+  let r := perform cfg nested tokens a st
+  (r.1, { r.2 with handler := true })
+
 /-- `finalEval` once every argument is a string -/
 def finalEval (cfg : EvCfg) (disp : List Str → Dispatch) (beh : Str → List Str → List Str → Act)
-    (nested : Nat) (path : List Nat) (done : List Str) (st : St) : Outcome × St :=
+    (inv : Nat → List Str → Act) (nested : Nat) (path : List Nat) (done : List Str) (st : St) : Outcome × St :=
   -- an exception inside finalEval (`args[0]` on the emptied list): it unwinds into the `_callCommand`
   -- of the sub-command whose noReply emptied the list; that one answers `replyError` on its own
   -- (child) proxy, which truncates and hands the text to this proxy, now `finalEvaled`.  But when the
@@ -344,7 +389,7 @@ def finalEval (cfg : EvCfg) (disp : List Str → Dispatch) (beh : Str → List S
     else (.replied (cfg.errorText.take cfg.maxLen), { st with handler := true })
   match disp done with
   | .exc _ => crash
-  | .none => (.stopped (.invalid done), st)
+  | .none => performInvalid cfg nested done (inv nested done) st   -- `_callInvalidCommands`
   | .ambiguous c names => (.stopped (.ambiguous c names), st)
   | .run _ plugin command rest =>
     perform cfg nested command (beh plugin command rest)
@@ -355,27 +400,27 @@ def finalEval (cfg : EvCfg) (disp : List Str → Dispatch) (beh : Str → List S
 of `args[counter]`.  A sub-list spawns the child proxy (`__init__`: nesting check, empty list →
 invalid command, else its own `evalArgs`); its outcome is substituted as `reply` / `noReply` do. -/
 def evalArgs (cfg : EvCfg) (disp : List Str → Dispatch) (beh : Str → List Str → List Str → Act)
-    (nested : Nat) (path : List Nat) (done : List Str) (i : Nat) : List Arg → St → Outcome × St
-  | [], st => finalEval cfg disp beh nested path done st
-  | .str s :: rest, st => evalArgs cfg disp beh nested path (done ++ [s]) (i + 1) rest st
+    (inv : Nat → List Str → Act) (nested : Nat) (path : List Nat) (done : List Str) (i : Nat) : List Arg → St → Outcome × St
+  | [], st => finalEval cfg disp beh inv nested path done st
+  | .str s :: rest, st => evalArgs cfg disp beh inv nested path (done ++ [s]) (i + 1) rest st
   | .sub l :: rest, st =>
     let child : Outcome × St :=
       if cfg.maxNesting ≠ 0 ∧ nested + 1 > cfg.maxNesting then (.stopped .tooDeep, st)
       else match l with
-        | [] => (.stopped (.invalid []), st)
-        | a :: l' => evalArgs cfg disp beh (nested + 1) (path ++ [i]) [] 0 (a :: l') st
+        | [] => performInvalid cfg (nested + 1) [] (inv (nested + 1) []) st   -- `if not args: _callInvalidCommands()`
+        | a :: l' => evalArgs cfg disp beh inv (nested + 1) (path ++ [i]) [] 0 (a :: l') st
     match child with
     | (.replied s, st') =>
-      if st'.ignored then evalArgs cfg disp beh nested path done (i + 1) rest { st' with ignored := false }
-      else evalArgs cfg disp beh nested path (done ++ [s.take cfg.maxLen]) (i + 1) rest st'
-    | (.noReply, st') => evalArgs cfg disp beh nested path done (i + 1) rest { st' with ignored := false }
+      if st'.ignored then evalArgs cfg disp beh inv nested path done (i + 1) rest { st' with ignored := false }
+      else evalArgs cfg disp beh inv nested path (done ++ [s.take cfg.maxLen]) (i + 1) rest st'
+    | (.noReply, st') => evalArgs cfg disp beh inv nested path done (i + 1) rest { st' with ignored := false }
     | (.stopped w, st') => (.stopped w, st')
 
 /-- `NestedCommandsIrcProxy(irc, msg, args)` for the top-level proxy (`nested = 0`) -/
 def evalTop (cfg : EvCfg) (disp : List Str → Dispatch) (beh : Str → List Str → List Str → Act)
-    (args : List Arg) (st : St) : Outcome × St :=
+    (inv : Nat → List Str → Act) (args : List Arg) (st : St) : Outcome × St :=
   match args with
-  | [] => (.stopped (.invalid []), st)
-  | _ => evalArgs cfg disp beh 0 [] [] 0 args st
+  | [] => performInvalid cfg 0 [] (inv 0 []) st
+  | _ => evalArgs cfg disp beh inv 0 [] [] 0 args st
 
 end C14
